@@ -1,6 +1,6 @@
 """C05 — header tables are located exactly as the ELF header (and shdr[0]) declare."""
 from gen import *
-import vlib, elfgen, filegen, fileq
+import vlib, elfgen, filegen, fileq, streamgen
 
 LEVEL = "proof"
 RULE = ("generated objects with the table-locating fields of the ELF header and of shdr[0] replaced by boundary values "
@@ -15,10 +15,17 @@ _exp = {}
 QS = ["ehdr", "shnum", "phnum", "shstr", "shdrs", "phdrs", "symtab", "dynsym", "dynamic", "symver 0 1"]
 
 
-def add_case(cases, fam, data, qs=QS):
+QS_S = ["ehdr", "shdrs", "phdrs", "shstr"]
+
+
+def add_case(cases, fam, data, qs=QS, stream=True):
     c = "bytes %s %s | %s" % (fam, hx(data), " | ".join(qs))
     _exp[c] = (fam, data)
     cases.append(c)
+    if stream and qs is QS:          # the same file through ElfStream (section_headers, segments, section_headers_with_strtab)
+        c = streamgen.stream_case(fam, data, "plain", [], QS_S)
+        _exp[c] = (fam, data)
+        cases.append(c)
 
 
 def big_file(rng, cl, little, nsec, variant):
@@ -66,6 +73,14 @@ def gen(rng, tier):
             d4 = elfgen.patch(data, meta, "ehdr", "e_phnum", 0xffff)
             for v in (meta["nph"], meta["nph"] + 1, 0, 1, 2**31):
                 add_case(cases, fam, elfgen.patch(d4, meta, "shdr", "sh_info", v, 0))
+            # extended numbering combined: both counts in shdr[0]; a wrong entry size together with a count of 0 / 0xffff
+            d5 = elfgen.patch(elfgen.patch(d2, meta, "shdr", "sh_size", meta["nsh"], 0), meta, "ehdr", "e_phnum", 0xffff)
+            add_case(cases, fam, elfgen.patch(d5, meta, "shdr", "sh_info", meta["nph"], 0))
+            for v in (0, shsz - 1, shsz + 1, 2 * shsz):
+                add_case(cases, fam, elfgen.patch(d2, meta, "ehdr", "e_shentsize", v))
+                add_case(cases, fam, elfgen.patch(elfgen.patch(d2, meta, "shdr", "sh_size", meta["nsh"], 0), meta, "ehdr", "e_shentsize", v))
+            for v in (0, phsz - 1, phsz + 1, 2 * phsz):
+                add_case(cases, fam, elfgen.patch(elfgen.patch(d4, meta, "shdr", "sh_info", meta["nph"], 0), meta, "ehdr", "e_phentsize", v))
         else:
             add_case(cases, fam, elfgen.patch(data, meta, "ehdr", "e_phnum", 0xffff))    # PN_XNUM without section headers
         # entry sizes, offsets, counts
@@ -96,7 +111,7 @@ def gen(rng, tier):
 
 
 def project(line):
-    return vlib.collapse_errors(line)
+    return vlib.collapse_errors(streamgen.strip_alloc(line)[0])
 
 
 _default = default_oracle(project)
@@ -109,6 +124,19 @@ def oracle(case, impl, model):
     if case in _exp:
         fam, data = _exp[case]
         o = fileq.py_open(fam, data)
+        if case.startswith("stream"):
+            sres, _ = streamgen.split_stream(project(impl))
+            opened = not sres.startswith("E")
+            if (o is not None) != opened:
+                return "open_stream %s, but per the ELF header it must %s" % ("succeeded" if opened else "failed", "succeed" if o else "fail")
+            if o is not None:
+                items = vlib.split_top(sres[1:-1])
+                for q, it, key in (("shdrs", items[1], "sh"), ("phdrs", items[2], "ph")):
+                    want = 0 if o[key] == ("absent",) else o[key][1]
+                    got = len(vlib.split_top(it[1:-1])) if it.startswith("[") else -1
+                    if got != want:
+                        return "stream: %d entries in %s, the header declares %d" % (got, q, want)
+            return None
         opened = not impl.startswith("E:")
         if (o is not None) != opened:
             return "open %s, but per the ELF header it must %s" % ("succeeded" if opened else "failed", "succeed" if o else "fail")
@@ -128,13 +156,14 @@ def oracle(case, impl, model):
 
 
 def nontrivial(case, impl):
-    return not impl.startswith("E:")
+    return impl.startswith("stream([") if case.startswith("stream") else not impl.startswith("E:")
 
 
 def distribution(cases, impl, model):
     d = {"files": len(cases), "opened": 0, "rejected": 0, "shdr_tables": 0, "phdr_tables": 0, "max_file_bytes": 0, "entsize_errors": 0}
     for c, il in zip(cases, impl):
-        d["opened" if not il.startswith("E:") else "rejected"] += 1
+        d["stream_cases"] = d.get("stream_cases", 0) + c.startswith("stream")
+        d["opened" if nontrivial(c, il) else "rejected"] += 1
         d["entsize_errors"] += il.count("E:BadEntsize")
         if c in _exp:
             d["max_file_bytes"] = max(d["max_file_bytes"], len(_exp[c][1]))
